@@ -84,9 +84,12 @@ def write_dataset(d, ds, naming='ks', col1=False, id_dtype=np.int32, time_dtype=
         elif key in ('pcf', 'tf'):
             np.save(d / fname, np.asarray(ds[key], dtype=float_dtype))
         else:
-            np.save(d / fname, np.asarray(ds[key], dtype=ds.get('aux_dtype', np.float64)))
+            a = np.asarray(ds[key], dtype=ds.get('aux_dtype', np.float64))
+            # (2-D arrays may be stored in Fortran order, as a transposed or Matlab-written matrix is)
+            np.save(d / fname, np.asfortranarray(a) if (ds.get('aux_fortran') and a.ndim == 2) else a)
     for name, arr in (ds.get('attrs') or {}).items():
-        np.save(d / ('spike_%s.npy' % name), np.asarray(arr))
+        a = np.asarray(arr)
+        np.save(d / ('spike_%s.npy' % name), np.asfortranarray(a) if (ds.get('aux_fortran') and a.ndim == 2) else a)
     for fname, text in (tsv or {}).items():
         (d / fname).write_text(text)
     ncdat = int(ds.get('ncdat') or len(ds['chmap']))      # raw channel count (may exceed the channel map)
